@@ -208,17 +208,29 @@ func (x *Exec) havocHeap(st *State, why string) {
 	st.Heap = map[string]Term{}
 	nb := x.C.Fresh("brk", SRef)
 	x.C.Assume(bvCmp("bvuge", nb, st.Brk), "allocator monotone across "+why)
+	x.C.NoteRefGE(nb.S, st.Brk.S)
 	st.Brk = nb
 	x.oldWrites++
+	x.dirtyAll = true
 	x.havocked = true
 }
 
 func (x *Exec) resolveInvoke(st *State, call *ssa.CallCommon, recv Term) (*ssa.Function, Val) {
-	// resolvable only if the interface value is a syntactic constructor with constant type id
-	if !strings.HasPrefix(recv.S, "(mk-iface #x") {
+	// resolvable when the interface value is the result of a MakeInterface instruction executed earlier (possibly in
+	// a caller): its dynamic type and the boxed value are then known
+	org, ok := x.ifaceOrigin[recv.S]
+	if !ok {
 		return nil, nil
 	}
-	return nil, nil
+	sel := x.P.SSA.MethodSets.MethodSet(org.Typ).Lookup(call.Method.Pkg(), call.Method.Name())
+	if sel == nil {
+		return nil, nil
+	}
+	fn := x.P.SSA.MethodValue(sel)
+	if fn == nil || len(fn.Blocks) == 0 {
+		return nil, nil
+	}
+	return fn, org.Val
 }
 
 // callResolved: contract > model > inline > external
@@ -229,6 +241,40 @@ func (x *Exec) callResolved(fr *Frame, st *State, fn *ssa.Function, args []Val, 
 	}
 	if res, ok, err := x.model(fr, st, fn, args, site); ok || err != nil {
 		return res, err
+	}
+	if name == "(*bytes.Reader).Read" && site != nil && x.topContract != nil && x.topContract.Opts["strictread"] != "" && len(args) == 2 {
+		// `opt strictread`: the callers under this contract ignore the count returned by Read, so a read that can come
+		// back short (fewer octets left than requested) would accept truncated input
+		if rp, ok := args[0].(PtrV); ok {
+			if rv, err := x.Load(st, rp); err == nil {
+				if rt, err := x.toTerm(rv); err == nil {
+					si := x.C.StructInfo(rp.Typ.Underlying().(*types.Pointer).Elem())
+					var s, i Term
+					for k, f := range si.Fields {
+						if strings.HasSuffix(f, "-s") {
+							s = App(si.FSorts[k], f, rt)
+						}
+						if strings.HasSuffix(f, "-i") {
+							i = App(si.FSorts[k], f, rt)
+						}
+					}
+					if s.S != "" && i.S != "" {
+						want := SlLen(args[1].(TV).T)
+						x.obligation(fr, site, "shortread", st.PC, bvCmp("bvsle", want, bvBin("bvsub", SlLen(s), i)), "Read may return fewer octets than requested and the count is not checked (truncated input accepted)")
+					}
+				}
+			}
+		}
+	}
+	if fc := x.DB.For(fn); fc != nil && fn == x.Top && fc.HasSpec() && site != nil {
+		// direct recursion: the call is checked against the function's own contract (partial correctness); termination
+		// needs a variant, given as `opt decreases=<measure>` — without one the recursion is reported
+		if fc.Opts["decreases"] == "" {
+			x.obligation(fr, site, "term", st.PC, TFalse, "recursive call with no decreases measure: termination is not established")
+		} else {
+			x.C.trusted["termination of the recursion in "+fc.Name+" (declared measure "+fc.Opts["decreases"]+" is not checked)"] = true
+		}
+		return x.applyContract(fr, st, fn, fc, args, site)
 	}
 	if fc := x.DB.For(fn); fc != nil && fn != x.Top && fc.HasSpec() && fc.Opts["inline"] == "" {
 		return x.applyContract(fr, st, fn, fc, args, site)
@@ -262,6 +308,8 @@ func pkgPathOf(fn *ssa.Function) string {
 var stdInline = map[string]bool{
 	"(*bytes.Reader).ReadByte": true, "(*bytes.Reader).Read": true, "(*bytes.Reader).Len": true, "(*bytes.Reader).Size": true,
 	"bytes.NewReader": true, "(*bytes.Reader).Reset": true, "(*bytes.Reader).UnreadByte": true,
+	"bytes.NewBuffer": true, "(*bytes.Buffer).Len": true, "(*bytes.Buffer).Bytes": true, "(*bytes.Buffer).Next": true,
+	"(*bytes.Buffer).Read": true, "(*bytes.Buffer).empty": true, "(*bytes.Buffer).Reset": true,
 }
 
 func (x *Exec) inlineStdlib(fn *ssa.Function) bool {
@@ -373,9 +421,10 @@ func (x *Exec) copyElemsBounded(dst, dstOff, src, srcOff, n Term, bound int64) T
 		out := dst
 		for i := int64(0); i < bound; i++ {
 			k := BVInt(i, 64)
-			out = Ite(bvCmp("bvult", k, n), Store(out, bvBin("bvadd", dstOff, k), Select(src, bvBin("bvadd", srcOff, k))), out)
+			// (each step is named: `out` occurs twice in the step, so an unnamed chain doubles in size per element)
+			out = x.C.Name("cpb", Ite(bvCmp("bvult", k, n), Store(out, bvBin("bvadd", dstOff, k), Select(src, bvBin("bvadd", srcOff, k))), out))
 		}
-		return x.C.Name("cpb", out)
+		return out
 	}
 	// symbolic length: lambda array (z3)
 	x.C.usesLambda = true
@@ -430,7 +479,7 @@ func (x *Exec) builtinCopy(fr *Frame, st *State, call *ssa.CallCommon, args []Va
 	}
 	narr := x.copyElemsBounded(darr, SlOff(dst), srcArr, srcOff, n, bound)
 	// copy with n == 0 must not touch the heap (dst may be nil)
-	x.noteWrite(SlBase(dst))
+	x.noteWrite(SlBase(dst), r)
 	x.heapSet(st, r, Ite(Eq(n, BVInt(0, 64)), h, Store(h, SlBase(dst), narr)))
 	return TV{T: n, Typ: types.Typ[types.Int]}, nil
 }
@@ -469,7 +518,7 @@ func (x *Exec) builtinAppend(fr *Frame, st *State, call *ssa.CallCommon, args []
 	grown = x.copyElems(x.C.Name("apg", grown), ln, srcArr, srcOff, n)
 	hGrow := Store(h, newRef, grown)
 	// n == 0 and fits: Go returns s unchanged (heap untouched)
-	x.noteWrite(base)
+	x.noteWrite(base, r)
 	x.heapSet(st, r, Ite(fits, Ite(Eq(n, BVInt(0, 64)), h, hIn), hGrow))
 	st.Brk = x.C.Name("brk", Ite(fits, st.Brk, bvBin("bvadd", st.Brk, BVInt(1, 32))))
 	res := Ite(fits, MkSlice(base, off, newLen, cp), MkSlice(newRef, BVInt(0, 64), newLen, newCap))
